@@ -90,6 +90,7 @@ func run(p *props.Prop, r *rep.Report, tier, repo, verif string, seed int64) (co
 		}
 		ana.DefaultProg = prog
 		ctx := &props.Ctx{P: prog, R: r, Tier: tier, Repo: repo, Verif: verif, Load: ana.Load}
+		props.ResolveAnchors(ctx)
 		p.Run(ctx)
 		last = ctx
 	}
